@@ -62,7 +62,12 @@ def step(args):
         designs = args.get('designs') or list(range(n))     # members may share a design vector
         for i in range(n):
             ind = Individual([float(designs[i]), 0.5])
-            ind.costs_signed = common.sym_costs(ctx, 's%d' % i, m, 'bool')
+            if args.get('staircase'):
+                # LARGE archive: the members are a concrete staircase of mutually non-dominated points (only the
+                # newcomer is symbolic), so that archive sizes far beyond the fully symbolic bound are reached
+                ind.costs_signed = ([float(i), float(n - i)] + [1.0] * (m - 2))[:m] + [True]
+            else:
+                ind.costs_signed = common.sym_costs(ctx, 's%d' % i, m, 'bool')
             S.append(ind)
         x = Individual([float(args.get('xdesign', 99)), 0.5])
         x.costs_signed = common.sym_costs(ctx, 'x', m, 'bool')
@@ -237,6 +242,9 @@ def configs(tier):
                     'engine': {'validate': 40}})
 
     for cmp_ in ('pareto', 'eps'):
+        for n in ((6, 9) if cmp_ == 'pareto' else (7,)):
+            out.append({'name': 'step-staircase-n%d-m2-%s' % (n, cmp_), 'task': 'step',
+                        'args': {'n': n, 'm': 2, 'cmp': cmp_, 'staircase': True}, 'weight': 40 * n, 'split': 32, 'engine': {'validate': 40}})
         for n in (0, 1, 2, 3, 4):
             for m in (1, 2):
                 add_step(n, m, cmp_, split=24 if n >= 4 else None)
